@@ -114,6 +114,16 @@ func c15Check(c c15Case) error {
 			if _, err := tapeCheck(got, true); err != nil {
 				return fmt.Errorf("%s: tape format: %v", where, err)
 			}
+			if st.Copy {
+				// copy mode (asked for explicitly here; it is also the default): the caller may recycle its input buffer at once
+				for k := range in {
+					in[k] = 0xff
+				}
+				after, err := canonOf(got)
+				if err != nil || !bytes.Equal(after, want) {
+					return fmt.Errorf("%s: parsed with string copying into a reused object, but overwriting the input buffer afterwards changed the document (the string mode of an earlier call leaked): %v %s", where, err, diffCanon(want, after))
+				}
+			}
 			// marshalled text must be the same as well (exercises Message/Strings bookkeeping)
 			fi, gi := fresh.Iter(), got.Iter()
 			fm, ferr2 := fi.MarshalJSON()
@@ -131,7 +141,31 @@ func c15Check(c c15Case) error {
 			if slot < 0 || pool[slot] == nil || model[slot] == nil {
 				continue
 			}
-			// a simple in-place edit: SetNull / SetInt / SetString on the k-th scalar; the model is re-read afterwards
+			// a simple in-place edit: SetNull / SetInt / SetString on the k-th scalar, or a deletion that leaves a run of
+			// NOP entries; the model is re-read afterwards
+			if st.Edit%4 == 3 {
+				di := pool[slot].Iter()
+				for {
+					tag := di.AdvanceInto()
+					if tag == simdjson.TagEnd {
+						break
+					}
+					if tag == simdjson.TagArrayStart {
+						if arr, err := di.Array(nil); err == nil {
+							n := 0
+							arr.DeleteElems(func(simdjson.Iter) bool { n++; return n%3 != 0 })
+						}
+						break
+					}
+					if tag == simdjson.TagObjectStart && st.Edit%8 == 7 {
+						if obj, err := di.Object(nil); err == nil {
+							n := 0
+							obj.DeleteElems(func([]byte, simdjson.Iter) bool { n++; return n%2 == 1 }, nil)
+						}
+						break
+					}
+				}
+			}
 			it := pool[slot].Iter()
 			k := 0
 			for {
@@ -203,6 +237,18 @@ func c15Check(c c15Case) error {
 			}
 			if _, err := tapeCheck(out, true); err != nil {
 				return fmt.Errorf("%s: tape format: %v", where, err)
+			}
+			// the result is a tape like any other: serializing it again must work and denote the same document
+			var blob2 []byte
+			if perr := noPanic("Serialize of a tape deserialized into a reused destination", func() { blob2 = simdjson.NewSerializer().Serialize(nil, *out) }); perr != nil {
+				return fmt.Errorf("%s: %v", where, perr)
+			}
+			back2, err := simdjson.NewSerializer().Deserialize(blob2, nil)
+			if err != nil {
+				return fmt.Errorf("%s: re-serialized tape cannot be read: %v", where, err)
+			}
+			if bc2, err := canonOf(back2); err != nil || !bytes.Equal(bc2, lastBlobCanon) {
+				return fmt.Errorf("%s: re-serializing the tape gives a different document: %v %s", where, err, diffCanon(lastBlobCanon, bc2))
 			}
 			tgt := slot
 			if tgt < 0 {
